@@ -183,6 +183,25 @@ func (un *Unit) execCall(fr *Frame, st *State, c *ssa.CallCommon, instr ssa.Inst
 			return un.applyContract(fr, st, fs, names, sig, all, p.Name(), pos)
 		}
 	}
+	// a captured function variable of a closure, tied to a funcspec by `param <name> <funcspec>` in the closure's contract
+	fvr, isFV := c.Value.(*ssa.FreeVar)
+	if ld, ok := c.Value.(*ssa.UnOp); ok && ld.Op == token.MUL {
+		// captured by reference: the closure loads the function from the captured cell
+		fvr, isFV = ld.X.(*ssa.FreeVar)
+	}
+	if isFV && fr.contract != nil {
+		if fsName, ok := fr.contract.Params[fvr.Name()]; ok {
+			fs := un.specs.FuncSpecs[fsName]
+			if fs == nil {
+				un.outside = "unknown funcspec " + fsName
+				return un.havocResults(st, sig, "call")
+			}
+			un.safety(st, fr, "nil-func", fvr.Name(), not(eq(fv.t, "0")), pos)
+			names := append([]string{"this"}, sigNames(sig, fs)...)
+			all := append([]Val{{t: fv.t, typ: sig}}, args...)
+			return un.applyContract(fr, st, fs, names, sig, all, fvr.Name(), pos)
+		}
+	}
 	if p, ok := c.Value.(*ssa.Parameter); ok {
 		un.safety(st, fr, "nil-func", p.Name(), not(eq(fv.t, "0")), pos)
 	} else {
@@ -266,11 +285,7 @@ func (un *Unit) devirtualize(fr *Frame, st *State, recv Val, m *types.Func, args
 		return Val{}, false
 	}
 	payload := rest[sp+1:]
-	sel := un.prog.prog.MethodSets.MethodSet(ct).Lookup(m.Pkg(), m.Name())
-	if sel == nil {
-		return Val{}, false
-	}
-	fn := un.prog.prog.MethodValue(sel)
+	fn := un.prog.methodFor(ct, m)
 	if fn == nil || (fn.Blocks == nil && un.lookupFuncContract(fn) == nil) {
 		return Val{}, false
 	}
@@ -296,6 +311,9 @@ func sel2(a, i string) string { return "(select " + a + " " + i + ")" }
 func (un *Unit) invoke(fr *Frame, st *State, recv Val, recvT types.Type, m *types.Func, args []Val, ats []types.Type, pos token.Pos) Val {
 	sig := m.Type().(*types.Signature)
 	if v, ok := un.devirtualize(fr, st, recv, m, args, ats, pos); ok {
+		return v
+	}
+	if v, ok := un.devirtClosed(fr, st, recv, recvT, m, args, ats, pos); ok {
 		return v
 	}
 	fc, key, path := un.lookupIface(recvT, m)
@@ -341,7 +359,7 @@ func (un *Unit) callStatic(fr *Frame, st *State, callee *ssa.Function, binds []V
 		return v
 	}
 	fc := un.lookupFuncContract(callee)
-	if fc != nil {
+	if fc != nil && !un.preOnly {
 		if _, noFrame := fc.Opts["no-frame"]; noFrame {
 			// an entry-point contract without a checked frame is never assumed at call sites
 			fc = nil
@@ -411,7 +429,7 @@ func (un *Unit) newFrame(fn *ssa.Function, parent *Frame) *Frame {
 	if parent != nil {
 		d = parent.depth + 1
 	}
-	return &Frame{fn: fn, env: map[ssa.Value]Val{}, depth: d, id: un.frameN, parent: parent, calls: map[string]int{}, callRes: map[string][]Val{}}
+	return &Frame{fn: fn, env: map[ssa.Value]Val{}, depth: d, id: un.frameN, parent: parent, calls: map[string]int{}, callRes: map[string][]Val{}, callArgs: map[string]map[string]Val{}}
 }
 
 func (un *Unit) inline(fr *Frame, st *State, callee *ssa.Function, binds []Val, args []Val) Val {
@@ -875,6 +893,35 @@ func (un *Unit) modelCall(fr *Frame, st *State, callee *ssa.Function, full strin
 		un.assume(st, implies(and(eq(args[0].t, args[1].t), not(eq("(i_tag "+args[0].t+")", "0"))), r))
 		un.assumed["errors.Is(nil, t) is false; errors.Is(e, e) is true for non-nil e"] = true
 		return Val{t: r}, true
+	case "errors.As":
+		// errors.As(err, &target): when it reports true, target holds a non-nil value of its type found in err's chain
+		r := un.u.freshConst("errors_as", "Bool")
+		un.assume(st, implies(eq("(i_tag "+args[0].t+")", "0"), not(r)))
+		if len(c2args(args)) == 2 && strings.HasPrefix(args[1].t, "(mk_iface ") {
+			rest := strings.TrimSuffix(strings.TrimPrefix(args[1].t, "(mk_iface "), ")")
+			if sp := strings.Index(rest, " "); sp > 0 {
+				var tag int
+				if _, err := fmt.Sscanf(rest[:sp], "%d", &tag); err == nil {
+					if pt, ok := typeTagTypes[tag]; ok {
+						if ptr, ok := pt.Underlying().(*types.Pointer); ok {
+							pl := un.placeOf(st, Val{t: rest[sp+1:], typ: pt}, ptr.Elem())
+							old := un.loadPlace(st, pl)
+							nv := un.u.freshConst("as_target", un.u.sortOf(ptr.Elem()))
+							un.assume(st, un.typeFacts(st, nv, ptr.Elem()))
+							switch ptr.Elem().Underlying().(type) {
+							case *types.Interface:
+								un.assume(st, implies(r, not(eq("(i_tag "+nv+")", "0"))))
+							case *types.Pointer:
+								un.assume(st, implies(r, not(eq(nv, "0"))))
+							}
+							un.storePlace(st, pl, ite(r, nv, old))
+						}
+					}
+				}
+			}
+		}
+		un.assumed["errors.As(nil, t) is false; when it reports true the target holds a non-nil value"] = true
+		return Val{t: r}, true
 	case "strconv.FormatInt":
 		if args[1].t == "10" {
 			return Val{t: un.itoa(args[0].t)}, true
@@ -1101,3 +1148,79 @@ func (un *Unit) modelSortSlice(fr *Frame, st *State, args []Val, ats []types.Typ
 	un.assumed["sort.Slice with the comparison s[i] < s[j] leaves s an ascending permutation of its former contents"] = true
 	return Val{t: "0"}, true
 }
+
+// devirtClosed implements `opt devirt Iface:*T1|*T2` of the function under verification: an interface call on Iface is
+// executed as a case split over the listed concrete receiver types (their own contracts, or their bodies), after an
+// obligation that the dynamic type is one of them.
+func (un *Unit) devirtClosed(fr *Frame, st *State, recv Val, recvT types.Type, m *types.Func, args []Val, ats []types.Type, pos token.Pos) (Val, bool) {
+	if un.contract == nil {
+		return Val{}, false
+	}
+	spec, ok := un.contract.Opts["devirt"]
+	if !ok {
+		return Val{}, false
+	}
+	i := strings.Index(spec, ":")
+	n := namedOf(recvT)
+	if i < 0 || n == nil || n.Obj().Name() != strings.TrimSpace(spec[:i]) {
+		return Val{}, false
+	}
+	sc := &Scope{un: un, vars: map[string]SV{}, cur: st, old: un.entry, pkg: n.Obj().Pkg(), fr: fr}
+	type cand struct {
+		t  types.Type
+		fn *ssa.Function
+	}
+	var cands []cand
+	for _, tn := range strings.Split(spec[i+1:], "|") {
+		t, _, err := sc.resolveType(strings.TrimSpace(tn))
+		if err != nil || t == nil {
+			un.outside = "opt devirt: unknown type " + tn
+			return Val{}, true
+		}
+		fn := un.prog.methodFor(t, m)
+		if fn == nil {
+			un.outside = "opt devirt: no method value for " + tn + "." + m.Name()
+			return Val{}, true
+		}
+		cands = append(cands, cand{t, fn})
+	}
+	tag := "(i_tag " + recv.t + ")"
+	var alts []string
+	for _, c := range cands {
+		alts = append(alts, eq(tag, fmt.Sprint(un.typeTag(c.t))))
+	}
+	base := fmt.Sprintf("%s/devirt/%s.%s", funcKey(un.fn), n.Obj().Name(), m.Name())
+	if fr.fn != un.fn {
+		base += ">" + shortFn(fr.fn)
+	}
+	var props []string
+	if un.contract != nil {
+		props = un.contract.Facets
+	}
+	un.oblige(st, "devirt", un.uniqueName(base), props, or(alts...), pos, "the receiver's dynamic type is one of "+spec[i+1:])
+	sig := m.Type().(*types.Signature)
+	var sts []*State
+	var vals []Val
+	for k, c := range cands {
+		s2 := st.clone()
+		s2.guard = and(st.guard, alts[k])
+		rv := Val{t: "(i_val " + recv.t + ")", typ: c.t}
+		all := append([]Val{rv}, args...)
+		allT := append([]types.Type{c.t}, ats...)
+		v := un.callStatic(fr, s2, c.fn, nil, all, allT, pos)
+		sts = append(sts, s2)
+		vals = append(vals, v)
+	}
+	mg := un.mergeStates(sts)
+	*st = *mg
+	var rt types.Type = sig.Results()
+	if sig.Results().Len() == 1 {
+		rt = sig.Results().At(0).Type()
+	}
+	if sig.Results().Len() == 0 {
+		return vals[0], true
+	}
+	return un.mergeVals(sts, vals, rt), true
+}
+
+func c2args(a []Val) []Val { return a }
